@@ -765,3 +765,32 @@ func (a *fnAnalysis) inspect(in ssa.Instruction, b *ssa.BasicBlock) {
 		}
 	}
 }
+
+// FnView exposes the per-value results of one function evaluation.
+type FnView struct {
+	a       *fnAnalysis
+	Summary *Summary
+}
+
+// Analyze evaluates fn (not memoised) and returns a view for value queries.
+func (e *NilEval) Analyze(fn *ssa.Function, args []Nil) *FnView {
+	full := make([]Nil, len(fn.Params))
+	for i := range full {
+		full[i] = Top
+		if i < len(args) && args[i] != Bot {
+			full[i] = args[i]
+		}
+	}
+	if fn.Blocks == nil {
+		return nil
+	}
+	fa := &fnAnalysis{e: e, fn: fn, args: full, depth: 0, stack: []string{fn.String()}}
+	s := fa.run()
+	return &FnView{a: fa, Summary: s}
+}
+
+// NilOf returns the nilness of v as seen from block at.
+func (v *FnView) NilOf(val ssa.Value, at *ssa.BasicBlock) Nil { return v.a.nilOf(val, at) }
+
+// Reachable reports whether block b is reachable under the arguments.
+func (v *FnView) Reachable(b *ssa.BasicBlock) bool { return v.a.reach[b] }
